@@ -537,6 +537,11 @@ def check_transform(fns, what, bad):
         neg = [isinstance_types(t[1]) for t in tests if not t[2] and isinstance_types(t[1])]
         if any(x == N and 'list' in ty for x, ty in pos):
             kinds.add('list')
+            extra = sorted({t for x, ty in pos if x == N for t in ty} - {'list'})
+            if extra:
+                bad('C16-lists', f'{what}: values of type {extra} are rebuilt element-wise as lists: only lists are '
+                                 f'containers for transform, any other value is a leaf that passes through unchanged '
+                                 f'(an identity transform must return an equal tree)')
             want = ('COMP', 'ListComp', self_call(('ITEM', 'x')), ('GEN', 'x', N))
             ok = isinstance(ret, tuple) and ret[:2] == ('COMP', 'ListComp') and len(ret) == 4 \
                 and ret[3][2] == N and substitute(ret[2], {('ITEM', ret[3][1]): ('ITEM', 'x')}) == want[2]
